@@ -5,5 +5,6 @@ CONSTANTS
   Widths = {1, 2, 3, 4}
   Seps = {"sp", "nl", "dot", "dotfar", "none"}
   UnitLimits <- ULs
+  Space <- ProfSpace
 CONSTRAINT EmitCase
 CHECK_DEADLOCK FALSE
